@@ -47,8 +47,19 @@ func (e *enc) call(b *ssa.BasicBlock, c *ssa.Call) {
 // callCommon encodes a call. res is the SSA value receiving the result (nil for deferred calls).
 func (e *enc) callCommon(b *ssa.BasicBlock, ins ssa.Instruction, cc *ssa.CallCommon, res ssa.Value, R string) {
 	var args []string
+	e.curCallRefs = nil
 	for _, a := range cc.Args {
-		args = append(args, e.val(a))
+		t := e.val(a)
+		args = append(args, t)
+		switch e.sortOf(a.Type()) {
+		case "Ref":
+			e.curCallRefs = append(e.curCallRefs, t)
+		case "Iface":
+			e.curCallRefs = append(e.curCallRefs, "(iptr "+t+")")
+		}
+	}
+	if cc.IsInvoke() {
+		e.curCallRefs = append(e.curCallRefs, "(iptr "+e.val(cc.Value)+")")
 	}
 	havocRes := func() string {
 		if res != nil {
@@ -86,6 +97,11 @@ func (e *enc) callCommon(b *ssa.BasicBlock, ins ssa.Instruction, cc *ssa.CallCom
 	}
 	key := funcKey(callee)
 	e.callOrd[key]++
+	if callee.Signature.Recv() != nil && len(args) > 0 && callee.Pkg != nil && e.w.InRepo[callee.Pkg] {
+		if _, ok := cc.Args[0].Type().Underlying().(*types.Pointer); ok && !e.localAlloc[args[0]] {
+			e.addI("safe", "nil-recv", ins, R, fmt.Sprintf("(not (= %s 0))", args[0]))
+		}
+	}
 	e.siteAsserts(ins, fmt.Sprintf("call %d of %s", e.callOrd[key], key), callee.Signature, args, R)
 	e.ioCallCheck(ins, key, callee, R)
 	switch key {
@@ -113,7 +129,10 @@ func (e *enc) callCommon(b *ssa.BasicBlock, ins ssa.Instruction, cc *ssa.CallCom
 		e.assumeAt(R, fmt.Sprintf("(= %s INil)", args[0]))
 		return
 	}
-	// nil receiver check for pointer-receiver methods of repo types that dereference: left to callee's own obligations
+	if e.syncCall(ins, key, args, cc.Args, R) {
+		havocRes()
+		return
+	}
 	if fc := e.w.CS.Funcs[key]; fc != nil {
 		fc.Used = true
 		var recv string
